@@ -3,6 +3,7 @@ package nfa
 import (
 	"fmt"
 	"regexp/syntax"
+	"unicode"
 
 	"github.com/coregx/coregex/internal/conv"
 )
@@ -248,8 +249,8 @@ func (c *Compiler) compileLiteral(re *syntax.Regexp) (start, end StateID, err er
 	var first = InvalidState
 
 	for _, r := range runes {
-		// For case-insensitive matching of ASCII letters, create alternation
-		if foldCase && isASCIILetter(r) {
+		// For case-insensitive matching of a rune with case variants, create alternation
+		if foldCase && unicode.SimpleFold(r) != r {
 			nextState, err := c.compileFoldCaseRune(r, prev, &first)
 			if err != nil {
 				return InvalidState, InvalidState, err
@@ -267,35 +268,35 @@ func (c *Compiler) compileLiteral(re *syntax.Regexp) (start, end StateID, err er
 	return first, prev, nil
 }
 
-// compileFoldCaseRune compiles a case-insensitive ASCII letter
-// by creating alternation between upper and lower case versions
+// compileFoldCaseRune compiles a case-insensitive rune by creating an
+// alternation between all runes of its simple-fold orbit (k, K and U+212A
+// KELVIN SIGN; é and É; ...), which is what regexp's (?i) matches.
 func (c *Compiler) compileFoldCaseRune(r rune, prev StateID, first *StateID) (StateID, error) {
-	upper := toUpperASCII(r)
-	lower := toLowerASCII(r)
-
-	// Build UTF-8 sequences for both cases
-	upperStart, upperEnd, err := c.compileSingleRune(upper)
-	if err != nil {
-		return InvalidState, err
-	}
-	lowerStart, lowerEnd, err := c.compileSingleRune(lower)
-	if err != nil {
-		return InvalidState, err
+	orbit := []rune{r}
+	for f := unicode.SimpleFold(r); f != r; f = unicode.SimpleFold(f) {
+		orbit = append(orbit, f)
 	}
 
 	// Create join state
 	nextState := c.builder.AddEpsilon(InvalidState)
 
-	// Connect both paths to join
-	if err := c.builder.Patch(upperEnd, nextState); err != nil {
-		return InvalidState, err
+	// Build the UTF-8 sequence of every orbit member, connect each to the join
+	// state and chain them with split states.
+	split := InvalidState
+	for i := len(orbit) - 1; i >= 0; i-- {
+		altStart, altEnd, err := c.compileSingleRune(orbit[i])
+		if err != nil {
+			return InvalidState, err
+		}
+		if err := c.builder.Patch(altEnd, nextState); err != nil {
+			return InvalidState, err
+		}
+		if split == InvalidState {
+			split = altStart
+		} else {
+			split = c.builder.AddSplit(altStart, split)
+		}
 	}
-	if err := c.builder.Patch(lowerEnd, nextState); err != nil {
-		return InvalidState, err
-	}
-
-	// Create split state
-	split := c.builder.AddSplit(upperStart, lowerStart)
 
 	if prev == InvalidState {
 		// First character - split becomes the start
